@@ -81,4 +81,12 @@ def durGroups : Str → Option (Option Str × Option Str × Option Str × Option
   | '+' :: r => (durBodyGroups r).map (fun g => (some ['+'], g))
   | r => (durBodyGroups r).map (fun g => (some [], g))
 
+/-! ## wave 6 -/
+
+/-- `a, b = xs` for a list: ValueError unless it has exactly two elements -/
+def listUnpack2 {α : Type} (xs : List α) : Py (α × α) :=
+  match xs with
+  | [a, b] => .ok (a, b)
+  | _ => .error .valueError
+
 end ICal.PyRT
